@@ -192,6 +192,10 @@ def py_int(ip, args):
             return C(int(val.py))
         except (ValueError, TypeError, OverflowError) as e:
             raise_(type(e).__name__, str(e))
+    if isinstance(val, S) and kind_of(ip, val) is None and ctx.must(p_isinstance_number(val.t)):
+        # int() of a number whose int/float kind is not known on this path: no fork
+        t = val.t
+        return norm(ip, I(z3.simplify(z3.If(p_isinstance_int(t), intval(t), trunc(numval(t))))))
     k = numkind(ip, val)
     if k == 'int':
         return norm(ip, I(int_term(ip, val)))
@@ -247,6 +251,8 @@ def py_str(ip, val):
             return C('None')
         if k == 'bool':
             return T(z3.If(V.b(val.t), z3.StringVal('True'), z3.StringVal('False')))
+        if k == 'else' and ip.ctx.must(is_other(val.t)):
+            return T(ufun('STR_OF_OTHER', Int, Str)(V.oid(val.t)))
     if k == 'str':
         return val if not isinstance(val, S) else T(V.s(val.t))
     if k == 'int':
